@@ -678,6 +678,11 @@ def _correspondence(ctx):
         if rng.random() < 0.3:
             k = rng.randint(0, len(ln))
             cases.append((ln[:k] + rng.choice(list(";=,:+-0(MO") + ["BYDAY=", "=", ";;"]) + ln[k + rng.randint(0, 1):], {}))
+    # BYDAY / BYWEEKDAY items at the edges of the splitter (both syntaxes, signs, zero, missing pieces)
+    for item in ["MO(", "(1)", "1", "+", "+-1MO", "MO(+1", "1MO(2)", "", "MO()", "12", "-0TU", "TU(0)", "TU(+0)", "+0TU", "mo(1)", "1mo", "MO(1)(2)",
+                 "MO(1))", "5", "-", "+1", "SU(-53)", "53SU", "1_0MO", "MO( 1 )", " 1MO", "1 MO", "XX(1)", "(", "()", "1(MO)", "MOTU", "+1+1MO"]:
+        cases.append(("FREQ=DAILY;%s=%s" % (rng.choice(["BYDAY", "BYWEEKDAY", "byday"]), item), {}))
+        cases.append(("FREQ=DAILY;BYDAY=TU,%s,WE" % item, {}))
     # DTSTART / EXDATE lines with TZID parameters in every spelling (the name table, case, parameter order, folding)
     for r, s, _ in rules:
         if rng.random() < 0.5:
